@@ -31,6 +31,21 @@ func (ctx Ctx) declsOrError(stmt ast.Decl) (decls []coq.Decl, err error) {
 	return ctx.maybeDecls(stmt), nil
 }
 
+// errorAt builds the located conversion error that ctx.unsupported raises
+func (ctx Ctx) errorAt(n ast.Node, msg string, args ...interface{}) (err error) {
+	defer func() {
+		if r := recover(); r != nil {
+			if gooseErr, ok := r.(gooseError); ok {
+				err = gooseErr.err
+			} else {
+				panic(r)
+			}
+		}
+	}()
+	ctx.unsupported(n, msg, args...)
+	return nil
+}
+
 func filterImports(decls []coq.Decl) (nonImports []coq.Decl, imports coq.ImportDecls) {
 	for _, d := range decls {
 		switch d := d.(type) {
@@ -108,18 +123,27 @@ func (ctx Ctx) Decls(fs ...NamedFile) (imports coq.ImportDecls, decls []coq.Decl
 	var lastFile int
 	var processDecl func(id declId, ident string)
 
+	// declarations whose dependencies are being emitted: meeting one of them
+	// again (other than a declaration mentioning itself) is a cycle
+	inProgress := make(map[declId]bool)
 	processDecl = func(id declId, ident string) {
 		if generated[id] {
+			if inProgress[id] && ident != "" {
+				errs = append(errs, ctx.errorAt(units[id.fileIdx][id.declIdx],
+					"mutual recursion through %s (no order of the definitions works)", ident))
+			}
 			return
 		}
 		generated[id] = true
+		inProgress[id] = true
 
 		for _, dep := range declDeps[id] {
 			depid, ok := nameDecls[dep]
-			if ok {
+			if ok && depid != id {
 				processDecl(depid, dep)
 			}
 		}
+		inProgress[id] = false
 
 		if lastFile != id.fileIdx && ident != "" {
 			f := fs[id.fileIdx]
